@@ -261,7 +261,7 @@ theorem C10_kill_waits_while_stopping (rec : Rec) (u p : Nat) (sig gt : Option N
   rfl
 
 /-- **… and when that timer fires with the flag still set it waits again** — for ever, if the `kill_process` that set
-    the flag is gone (F33): nothing but the end of that coroutine clears `Process.stopping` -/
+    the flag is gone (F34): nothing but the end of that coroutine clears `Process.stopping` -/
 theorem C10_kill_wait_reparks_while_stopping (rec : Rec) (p : Nat) (wt : Waiter) (s : State)
     (hst : (getO p s).1.stopping = true) :
     runResume rec (.killWaitOther p) .unit wt s = awaitSleep 100 (.killWaitOther p) wt s := by
